@@ -364,10 +364,45 @@ def make_roots(stats):
     return test
 
 
+SKELETON_POINTS = [{"x": -3, "y": 2}, {"x": 0.5, "y": -0.5}, {"x": 2, "y": 3}, {"x": -1.5, "y": -2}]
+
+
+def run_skeletons(tier):
+    """Exhaustive small scope shared with C08/C10/C11: the symbolic derivative of every enumerated unary chain, unary
+    parent and tower (quick tier: a third of them; thorough tier: also the 3-ary and n-ary-mid blocks) with respect to x
+    is held to the true derivative at four fixed points with both signs."""
+    from . import c11
+    blocks = ("chains", "unary-parents", "towers") if tier == "quick" else ("chains", "unary-parents", "towers", "ternary", "nary-mid")
+    routes = ["Partial.as_expression/late", "Differential(early).component.as_expression", "Partial.as_expression/early"]
+
+    def run(stats, seed, shard, nshards):
+        for name, sliceable, gen in c11.skeleton_blocks():
+            if name not in blocks:
+                continue
+            i = 0
+            for m in gen():
+                i += 1
+                if i % nshards != shard:
+                    continue
+                if tier == "quick" and (i // nshards) % 3 != seed % 3:
+                    continue
+                stats.count("block:" + name)
+                vs = M.variables(m)
+                if "x" not in vs:
+                    continue
+                envs = [{k: p[k] for k in vs} for p in SKELETON_POINTS]
+                check(stats, m, "x", routes[(i // nshards) % 3], envs, sub="skeleton")
+    return run
+
+
 def parts(tier):
     n = 8000 if tier == "quick" else 150000
-    return [hyp_part("general", make_general, int(n * 0.5)), hyp_part("rational", make_rational, int(n * 0.25)),
+    return [run_part("skeletons", run_skeletons(tier)),
+            hyp_part("general", make_general, int(n * 0.5)), hyp_part("rational", make_rational, int(n * 0.25)),
             hyp_part("roots", make_roots, int(n * 0.25)), hyp_part("siblings", make_siblings, int(n * 0.15))]
+
+
+EXHAUSTIVE_PARTS = ["skeletons (C11's enumeration: thorough tier complete for chains, unary parents, towers, 3-ary and n-ary-mid blocks; quick tier a VERIF_SEED-chosen third of chains, unary parents and towers)"]
 
 
 def replay(case):
